@@ -102,8 +102,25 @@ def chain_family():
     return f
 
 
+# extra generator modes per property: (side, quick args, thorough args, tag)
+EXTRA = {
+    "C05": [("cli", ["--scripts=150", "--len=90", "--long=1"], ["--scripts=8000", "--len=100", "--long=1"], "cli-long")],
+    "C06": [("srv", ["--scripts=150", "--len=90", "--long=1"], ["--scripts=8000", "--len=110", "--long=1"], "srv-long")],
+    "C11": [("cli", ["--scripts=100", "--len=90", "--long=1"], ["--scripts=4000", "--len=100", "--long=1"], "cli-long")],
+}
+
+
 def families(prop, sides=("cli", "srv")):
     fams = []
+    for side, q, t, tag in EXTRA.get(prop, []):
+        if side in sides:
+            proj = (CLI_PROJ if side == "cli" else SRV_PROJ)[prop]
+            nt = (CLI_NONTRIVIAL if side == "cli" else SRV_NONTRIVIAL)[prop]
+            f = trace.Family(side, q, t, project=projector(proj), nontrivial=nt,
+                             rule=f"{side} scripts with {' '.join(q[2:])}: as the plain family plus boundary / long-range values "
+                                  "(deadlines days to months or decades away, extreme ids) and clock steps that reach them")
+            f.tag = tag
+            fams.append(f)
     if "cli" in sides and prop in CLI_PROJ:
         for i, (q, t) in enumerate(zip(CLI_QUICK, CLI_THOROUGH)):
             # woken-only scripts (with `settle`) are judged through C02's projection only: the real
